@@ -130,3 +130,33 @@ add({"name": "smells_like_watford", "file": ID,
                (r"std::all_of\(got->cbegin\(\), got->cbegin\(\)\+0x08,\s*\[\]\(byte b\) \{ return b == 0xAA; \}\)", "bytes_all_equal(got.val.d, 0x08, 0xAA)", 1),
                (r"(for \(pos = 8; pos <= last_catalog_entry_pos; pos \+= 8\))", r"\1 WATFORD_LOOP_CONTRACT", 1)],
      "dropped": ["eliminated_format(...) diagnostics (verbose-only stderr text)"]})
+
+# ---- driveselector.cc / storage.cc (C16): SurfaceSelector is `unsigned int d_` by value -----------
+DS = "dfs/driveselector.cc"
+SSEL = (r"SurfaceSelector\(", "(surface_t)(")
+THROW_OOR = (r'throw std::out_of_range\("[^"]*"\);', "{ VERIF_THROW(Other, 0); return 0; }")
+add({"name": "SurfaceSelector_opposite_surface", "file": DS, "anchor": r"SurfaceSelector SurfaceSelector::opposite_surface\(\) const",
+     "sig": "static surface_t SurfaceSelector_opposite_surface(surface_t d_)",
+     "rules": [(SSEL[0], SSEL[1], 2), (r"\babort\(\);", "VERIF_ABORT();", 1)]})
+add({"name": "SurfaceSelector_corresponding_side_of_next_device", "file": DS,
+     "anchor": r"SurfaceSelector SurfaceSelector::corresponding_side_of_next_device\(const SurfaceSelector& d\)",
+     "sig": "static surface_t SurfaceSelector_corresponding_side_of_next_device(surface_t d)",
+     "rules": [(r"\bauto val\b", "surface_t val", 1), (r"d\.d_", "d", 2), (THROW_OOR[0], THROW_OOR[1], 1), (SSEL[0], SSEL[1], 1)]})
+add({"name": "SurfaceSelector_next", "file": DS, "anchor": r"SurfaceSelector SurfaceSelector::next\(\) const",
+     "sig": "static surface_t SurfaceSelector_next(surface_t d_)",
+     "rules": [(r"std::numeric_limits<unsigned int>::max\(\)", "UINT_MAX", 1), (THROW_OOR[0], THROW_OOR[1], 1), (SSEL[0], SSEL[1], 1)]})
+add({"name": "SurfaceSelector_prev", "file": DS, "anchor": r"SurfaceSelector SurfaceSelector::prev\(\) const",
+     "sig": "static surface_t SurfaceSelector_prev(surface_t d_)",
+     "rules": [(THROW_OOR[0], THROW_OOR[1], 1), (SSEL[0], SSEL[1], 1)]})
+add({"name": "check_sequence_fits", "file": "dfs/storage.cc",
+     "anchor": r"bool check_sequence_fits\(DFS::drive_number i,\s*const std::vector<DriveConfig>::size_type to_do,\s*std::function<bool\(DFS::drive_number\)> occupied\)",
+     "sig": "static bool check_sequence_fits(surface_t i, const size_t to_do, struct occ_fn *occupied)",
+     "rules": [(r"typedef const std::vector<DriveConfig> vec;", "/* typedef dropped */", 1),
+               (r"vec::size_type", "size_t", 1),
+               (r"occupied\(i\.opposite_surface\(\)\)", "occupied_call(occupied, SurfaceSelector_opposite_surface(i))", 1),
+               (r"occupied\(i\)", "occupied_call(occupied, i)", 2),
+               (r"const auto limit = std::numeric_limits<DFS::drive_number>::max\(\)\.prev\(\);", "const surface_t limit = SurfaceSelector_prev(UINT_MAX);", 1),
+               (r"DFS::drive_number::corresponding_side_of_next_device\(i\)", "SurfaceSelector_corresponding_side_of_next_device(i)", 1),
+               (r"return false;", "{ g_cf_witness = i; return false; }", 3),
+               (r"(while \(i < limit && done < to_do\))", r"\1 FITS_LOOP_CONTRACT", 1)],
+     "dropped": ["local typedef"]})
